@@ -259,7 +259,9 @@ def run_sharded(exe, cases, tag, workdir, timeout=3600, shards=None):
         with open(cf, "w") as f:
             for _, c in buckets[k]:
                 f.write(c + "\n")
-        rc, out = sh([exe, cf, rf], timeout=timeout, env={"NO_COLOR": "1"})
+        # deep (non-tail) recursion of the extracted model on large inputs needs a large stack
+        rc, out = sh(f"ulimit -s unlimited 2>/dev/null || ulimit -s 1000000; exec '{exe}' '{cf}' '{rf}'",
+                     timeout=timeout, env={"NO_COLOR": "1"})
         res = parse_results(rf) if os.path.exists(rf) else []
         return k, rc, out, res
 
